@@ -2,9 +2,12 @@
 # usage: verify_seed.sh <srcdir with patch.diff, verif_demo_test.go, demo_location.txt> <name>
 # Confirms in a fresh scratch worktree of /repo HEAD: suite green with the change,
 # demo fails with it, demo passes without it. Removes the worktree afterwards.
+# VERIFY_RACE=1 runs the demonstration under the race detector (for changes whose
+# only effect is a data race).
 set -u
 SRC=$1; NAME=$2
 export GOFLAGS=-mod=mod GOPROXY=off GOSUMDB=off GOTOOLCHAIN=local
+RACE=""; [ "${VERIFY_RACE:-0}" = 1 ] && RACE="-race"
 WT=/tmp/vs/$NAME
 rm -rf $WT; mkdir -p /tmp/vs
 git -C /repo worktree add -q --detach $WT HEAD || exit 9
@@ -25,9 +28,9 @@ git apply $SRC/patch.diff || { echo "RESULT $NAME patch-does-not-apply"; cd /; g
 go build ./... || { echo "RESULT $NAME build-fails"; }
 go test -vet=off -count=1 ./... > suite.log 2>&1; s=$?
 cp $SRC/verif_demo_test.go $LOC/verif_demo_test.go
-go test -vet=off -count=1 -run 'TestVerifDemo' ./$LOC/ > demo_with.log 2>&1; dw=$?
+go test $RACE -vet=off -count=1 -run 'TestVerifDemo' ./$LOC/ > demo_with.log 2>&1; dw=$?
 git apply -R $SRC/patch.diff
-go test -vet=off -count=1 -run 'TestVerifDemo' ./$LOC/ > demo_without.log 2>&1; dwo=$?
+go test $RACE -vet=off -count=1 -run 'TestVerifDemo' ./$LOC/ > demo_without.log 2>&1; dwo=$?
 echo "RESULT $NAME suite_with_change_exit=$s demo_with_change_exit=$dw demo_without_change_exit=$dwo"
 [ $s -ne 0 ] && tail -20 suite.log
 [ $dwo -ne 0 ] && tail -20 demo_without.log
